@@ -177,3 +177,40 @@ func H_C17_commaOk() {
 		vfAssert(out == "false", "ok is false for an absent key")
 	}
 }
+
+// H_C17_pairs (thorough): isset(P, Q) and isset(P) && isset(Q) for every ordered pair of
+// the 27 access paths over the same symbolic data graph: never fails, true exactly when
+// both paths are set; also inside an if condition and negated.
+//
+//gosym:reach true,false
+//gosym:thorough-only
+//gosym:opts maxpaths=1200000 wall=1500
+func H_C17_pairs() {
+	root, present := c17Build()
+	p := ndChoice("p", len(c17Paths))
+	q := ndChoice("q", len(c17Paths))
+	form := ndChoice("form", 3)
+	P, Q := c17Paths[p], c17Paths[q]
+	both := present[P] && present[Q]
+	var src, yes, no string
+	switch form {
+	case 0:
+		src, yes, no = `{{ isset(`+P+`, `+Q+`) }}`, "true", "false"
+	case 1:
+		src, yes, no = `{{ if isset(`+P+`) && isset(`+Q+`) }}Y{{ else }}N{{ end }}`, "Y", "N"
+	default:
+		src, yes, no = `{{ if !isset(`+P+`, `+Q+`) }}N{{ else }}Y{{ end }}`, "Y", "N"
+	}
+	set := hxSet(nil, "/m.jet", src)
+	vars := make(VarMap)
+	vars.Set("d", root)
+	out, err := hxExec(set, "/m.jet", vars, nil)
+	vfAssert(err == nil, "isset never fails")
+	if both {
+		vfReach("true")
+		vfAssert(out == yes, "both arguments exist and are non-nil: set")
+	} else {
+		vfReach("false")
+		vfAssert(out == no, "a missing step or nil value in either argument: not set")
+	}
+}
